@@ -247,21 +247,43 @@ func (g *Gen) genC08() {
 			}
 		}
 		text := line + pad
-		cuts := r.Cuts(text, len(text))
-		sess := parseSess("fline", text, 0, cuts, 0, false, "O")
+		// the line may start anywhere in the buffer (e.g. behind an earlier message) and arrive in pieces
+		start := 0
+		if r.P(35) {
+			junk := r.Pick("OPTIONS sip:a@b SIP/2.0\r\nl: 0\r\n\r\n", "\r\n", "xxxxxxxxxxxxxxxx", r.RandBytes("", 1, 40))
+			text = junk + text
+			start = len(junk)
+		}
+		line0 := line
+		line = text[:start+len(line0)]
+		cuts := r.Cuts(text[start:], len(text)-start)
+		for k := range cuts {
+			cuts[k] += start
+		}
+		sess := parseSess("fline", text, start, cuts, 0, false, "O")
 		g.add(Case{Prop: "C08", Desc: map[bool]string{true: "grammar", false: "near-miss"}[expOK], Lines: []string{sess}, Check: func(out []string) string {
 			return protect(func() string {
 				var fl sipsp.PFLine
 				bb := []byte(text)
-				o, err := sipsp.ParseFLine(bb, 0, &fl)
+				var o int
+				var err sipsp.ErrorHdr
+				off := start
+				for _, c := range cuts {
+					o, err = sipsp.ParseFLine(bb[:c], off, &fl)
+					if err != sipsp.ErrHdrMoreBytes {
+						break
+					}
+					off = o
+				}
+				line := line0
 				if !expOK {
 					if err == 0 {
 						return fmt.Sprintf("line %q violates the single-space grammar but was accepted (method %q uri %q version %q status %q reason %q)", line, fget(bb, fl.Method), fget(bb, fl.URI), fget(bb, fl.Version), fget(bb, fl.StatusCode), fget(bb, fl.Reason))
 					}
 					return ""
 				}
-				if err != 0 || o != len(line) {
-					return fmt.Sprintf("line %q: got (%d,%v), expected (%d,ok)", line, o, err, len(line))
+				if err != 0 || o != start+len(line) {
+					return fmt.Sprintf("line %q at offset %d, cuts %v: got (%d,%v), expected (%d,ok)", line, start, cuts, o, err, start+len(line))
 				}
 				if isReq {
 					if !fl.Request() || fget(bb, fl.Method) != m || fget(bb, fl.URI) != u || fget(bb, fl.Version) != v {
@@ -790,8 +812,75 @@ func swapCase(s string) string {
 
 type pitem struct{ name, val string; hasVal bool }
 
+// docAllowed: the documented name / value byte set of property C17 (uri = URI-parameter mode)
+func docAllowed(c byte, uri bool) bool {
+	if (c >= '0' && c <= '9') || (c >= 'A' && c <= 'Z') || (c >= 'a' && c <= 'z') {
+		return true
+	}
+	if strings.IndexByte("-_.!~*'()%[]/:+$", c) >= 0 {
+		return true
+	}
+	return (uri && c == '&') || (!uri && c == '?')
+}
+
 func (g *Gen) genC17() {
 	g.exhOneShot("C17", "tp")
+	// the allowed-byte table for every option word (256 bytes each): exactly the documented set
+	for fl := 0; fl < 256; fl++ {
+		fl := fl
+		g.add(Case{Prop: "C17", Desc: "allowed-byte-table", Lines: []string{fmt.Sprintf("tokallowed %d", fl)}, Check: func(out []string) string {
+			if len(out[0]) != 256 {
+				return "allowed-byte table not produced: " + tailOf(out[0], 40)
+			}
+			for c := 0; c < 256; c++ {
+				if (out[0][c] == '1') != docAllowed(byte(c), fl&64 != 0) {
+					return fmt.Sprintf("option word %d: byte %#x allowed=%v, the documented set says %v", fl, c, out[0][c] == '1', docAllowed(byte(c), fl&64 != 0))
+				}
+			}
+			return ""
+		}})
+	}
+	// every byte outside the documented set, inside a name and inside a token value, for the separator modes
+	for _, f2 := range []int{0, 16, 32, 64, 128, 16 | 1, 16 | 2, 16 | 4, 32 | 4} {
+		f2 := f2
+		sep := byte(';')
+		if f2&(32|128) != 0 {
+			sep = '&'
+		}
+		for c := 0; c < 256; c++ {
+			bad := byte(c)
+			if docAllowed(bad, f2&64 != 0) || bad == sep || bad == '=' || bad == '"' || bad == ' ' || bad == '\t' || bad == '\r' || bad == '\n' {
+				continue
+			}
+			if (bad == ',' && f2&1 != 0) || (bad == '?' && f2&(2|64) != 0) {
+				continue // the configured terminator ends the list
+			}
+			for where := 0; where < 2; where++ {
+				bt := "ab" + string([]byte{bad}) + "c=v\r\nX"
+				lim := 2 // the name must not extend over the bad byte
+				if where == 1 {
+					bt = "ab=v" + string([]byte{bad}) + "w\r\nX"
+					lim = 4
+				}
+				where := where
+				sess := parseSess("tokparam", bt, 0, []int{len(bt)}, f2, false, "O")
+				g.add(Case{Prop: "C17", Desc: "foreign-byte-all", Lines: []string{sess}, Check: func(out []string) string {
+					var p sipsp.PTokParam
+					o, err := sipsp.ParseTokenParam([]byte(bt), 0, &p, sipsp.POptFlags(f2))
+					if err == 0 || err == sipsp.ErrHdrEOH || err == sipsp.ErrHdrMoreValues {
+						f := p.Name
+						if where == 1 {
+							f = p.Val
+						}
+						if fend(f) > lim {
+							return fmt.Sprintf("option word %d: byte %#x outside the documented set was absorbed: %q -> (%d,%v) name %q value %q", f2, bad, bt, o, err, fget([]byte(bt), p.Name), fget([]byte(bt), p.Val))
+						}
+					}
+					return ""
+				}})
+			}
+		}
+	}
 	r := g.r
 	n := g.budget(3000, 100000)
 	for i := 0; i < n; i++ {
@@ -1237,7 +1326,7 @@ func (g *Gen) genC19() {
 				name := r.HdrName(t)
 				val := r.genValue(t, false, method, &MsgSpec{sane: true})
 				if t == 5 {
-					val = "SIP/2.0/UDP " + r.Host() + ";branch=" + r.Pick("z9hG4bK", "") + r.Pick(r.Token(4, 12), "nashds8", r.Alnum(3, 7), r.Alnum(3, 7), "a.b-c", "deadbeef00112233") + r.Pick("", "", ";rport", ", SIP/2.0/TCP h2;branch=zz-9")
+					val = "SIP/2.0/UDP " + r.Host() + r.Pick("", "", ";rport", ";ttl=3") + ";" + r.Pick("branch", "branch", r.ReCase("branch"), "BRANCH") + "=" + r.Pick("z9hG4bK", "", r.ReCase("z9hG4bK")) + r.Pick(r.Token(4, 12), "nashds8", r.Alnum(3, 7), r.Alnum(3, 7), "a.b-c", "deadbeef00112233") + r.Pick("", "", ";rport", ", SIP/2.0/TCP h2;branch=zz-9")
 					if r.P(15) { // an old-style first Via without a branch parameter
 						val = "SIP/2.0/UDP " + r.Host() + r.Pick("", ";received=1.2.3.4", ";rport;ttl=1")
 					}
